@@ -1117,8 +1117,8 @@ func (c *c12Case) replaced(snd *RTPSender, tr *c12Track, err error, old TrackLoc
 	}
 }
 
-// c12ErrReplacePanicked: ReplaceTrack panicked inside pion (recovered here: the call is synchronous). Not a matter of C12 —
-// no offer is involved — but the history goes on: the sender's record is marked unknown (outcome class "failed:other").
+// c12ErrReplacePanicked: ReplaceTrack panicked inside pion (recovered here: the call is synchronous): reported as a
+// violation (panic:RTPSender.ReplaceTrack); the history goes on with the sender's record marked unknown.
 var c12ErrReplacePanicked = errors.New("ReplaceTrack panicked") //nolint:gochecknoglobals
 
 func (c *c12Case) replaceTrack(snd *RTPSender, tr *c12Track) (err error) {
@@ -1127,6 +1127,9 @@ func (c *c12Case) replaceTrack(snd *RTPSender, tr *c12Track) (err error) {
 			c.run.Count("replace_track_panics", 1)
 			c.run.Seen("replace_track_panic_values", c12ErrClass(fmt.Errorf("%v", p)))
 			err = fmt.Errorf("%w: %v", c12ErrReplacePanicked, p)
+			// a panic of the library under a legal history is a violation whatever the property (same rule as the driver's
+			// for un-recovered panics); repaired once by fix: 7b7debf (re-bind of "no track" after ReplaceTrack(nil))
+			c.violation("panic:RTPSender.ReplaceTrack", fmt.Sprintf("ReplaceTrack panicked inside the library: %v", p), "")
 		}
 	}()
 	if tr == nil {
